@@ -27,6 +27,7 @@ fn cell(name: &str, auth: Auth, mismatch: bool) -> EvCell {
     ];
     if auth == Auth::Custom {
         alphabet.push(EvOp::Authorize(1));
+        alphabet.push(EvOp::PreMap(1));
     }
     EvCell {
         name: format!("c07-{name}"),
